@@ -151,10 +151,7 @@ Proof.
   - destruct (in_tx c); reflexivity.
 Qed.
 
-(** ** Every exported method found in the source is in the model *)
-Theorem gen_methods_covered : methods_covered db_methods = true /\ db_methods_problem = false.
-Proof. split; vm_compute; reflexivity. Qed.
-
+(** ** Every exported method found in the source that can reach the database is in the model *)
 Lemma access_eqb_eq : forall a b, access_eqb a b = true -> a = b.
 Proof.
   intros [[a1 a2] a3] [[b1 b2] b3] H. unfold access_eqb in H.
@@ -178,19 +175,39 @@ Proof.
   contradiction.
 Qed.
 
-(** Every exported method of DB in the source tree under test is a constructor of [call], with the kind of
-    database access the source can reach; so the confinement theorem speaks about each of them. *)
-Theorem every_db_method_modelled : forall m a,
-  In (m, a) db_methods -> (exists cl, call_name cl = m) /\ access_of m = a.
+Lemma name_of_call : forall cl, In (call_name cl) all_call_names.
+Proof. intros cl. destruct cl; cbv [call_name all_call_names method_access map fst In]; repeat first [left; reflexivity | right]. Qed.
+
+(** For ANY extracted table the evaluator accepts ([methods_covered], evaluated on the run's own extraction):
+    every extracted method that can reach the database is a constructor of [call] with that kind of access, so
+    the confinement theorem speaks about it; every constructor of [call] is an extracted method; and the methods
+    left over reach no database call at all. *)
+Theorem covered_table_is_modelled : forall gen,
+  methods_covered gen = true ->
+  (forall m a, In (m, a) gen -> a <> (false, false, false) ->
+     (exists cl, call_name cl = m) /\ access_of m = a)
+  /\ (forall cl, In (call_name cl) (map fst gen))
+  /\ (forall m, In m (methods_without_access gen) -> In (m, (false, false, false)) gen).
 Proof.
-  intros m a Hin. destruct gen_methods_covered as [Hc _]. unfold methods_covered in Hc.
-  rewrite forallb_forall in Hc. specialize (Hc (m, a) Hin). cbn [fst snd] in Hc.
-  destruct (lookup m method_access) as [a'|] eqn:E; [|discriminate].
-  apply access_eqb_eq in Hc. subst a'. split.
-  - apply call_of_name. unfold all_call_names. apply in_map_iff. exists (m, a). split; [reflexivity|].
-    apply lookup_In. exact E.
-  - unfold access_of. rewrite E. reflexivity.
+  intros gen H. unfold methods_covered in H. apply andb_prop in H. destruct H as [Ha Hb].
+  rewrite forallb_forall in Ha. rewrite forallb_forall in Hb. split; [|split].
+  - intros m a Hin Hne. specialize (Ha (m, a) Hin). cbn [fst snd] in Ha.
+    destruct (lookup m method_access) as [a'|] eqn:E.
+    + apply access_eqb_eq in Ha. subst a'. split.
+      * apply call_of_name. unfold all_call_names. apply in_map_iff. exists (m, a). split; [reflexivity|apply lookup_In; exact E].
+      * unfold access_of. rewrite E. reflexivity.
+    + unfold no_access in Ha. apply access_eqb_eq in Ha. contradiction.
+  - intros cl. specialize (Hb _ (name_of_call cl)). apply existsb_exists in Hb. destruct Hb as (x & Hx & Ex).
+    apply String.eqb_eq in Ex. subst x. exact Hx.
+  - intros m Hin. unfold methods_without_access in Hin. apply in_map_iff in Hin. destruct Hin as ([m' a] & <- & Hf).
+    apply filter_In in Hf. destruct Hf as [Hin Hp]. cbn [fst snd] in *.
+    destruct (lookup m' method_access); [discriminate|]. unfold no_access in Hp. apply access_eqb_eq in Hp. subst a. exact Hin.
 Qed.
+
+(** The snapshot of the table committed with the model (Gen/DbMethods.v, refreshed with tools/gensqlmethods) is
+    covered; every run checks its own extraction. *)
+Theorem snapshot_methods_covered : methods_covered db_methods = true /\ db_methods_problem = false.
+Proof. split; vm_compute; reflexivity. Qed.
 
 (** ** Handles derived by With* calls never lose a limit *)
 Definition xwf (x : xhandle) : Prop := x_has_dyn x = false -> h_dyn (x_h x) = None.
@@ -253,7 +270,3 @@ Theorem derive_keeps_limits_only : forall steps x, xwf x ->
   /\ (forall l, h_shard (x_h x) = Some l -> h_shard (x_h (fst (derive x steps))) = Some l).
 Proof. intros steps x H. exact (proj2 (derive_keeps_limits steps x H)). Qed.
 
-Theorem every_exported_method_modelled_and_extracted :
-  db_methods_problem = false /\
-  forall m a, In (m, a) db_methods -> (exists cl, call_name cl = m) /\ access_of m = a.
-Proof. exact (conj (proj2 gen_methods_covered) every_db_method_modelled). Qed.
